@@ -2,6 +2,7 @@ pub mod arith;
 pub mod battery;
 pub mod common;
 pub mod enumr;
+pub mod hist;
 pub mod props;
 pub mod report;
 pub mod selftest;
